@@ -28,12 +28,13 @@ type ownership struct {
 	p           *Prog
 	direct      map[string][2]int // "pkg.Func" -> (res index, err index)
 	ownedReturn map[*ssa.Function]map[int]bool
+	releases    map[*ssa.Function]map[int]bool // memo of releasesParam
 	captured    map[*ssa.Function]map[int]bool // parameter index whose holder is returned
 	eventfdNo   int64
 }
 
 func newOwnership(p *Prog) *ownership {
-	o := &ownership{p: p, ownedReturn: map[*ssa.Function]map[int]bool{}, captured: map[*ssa.Function]map[int]bool{}}
+	o := &ownership{p: p, ownedReturn: map[*ssa.Function]map[int]bool{}, captured: map[*ssa.Function]map[int]bool{}, releases: map[*ssa.Function]map[int]bool{}}
 	o.direct = map[string][2]int{
 		"syscall.Socket": {0, 1}, "syscall.Open": {0, 1}, "syscall.Accept": {0, 2}, "syscall.EpollCreate1": {0, 1},
 		"golang.org/x/sys/unix.TimerfdCreate": {0, 1}, "os.CreateTemp": {0, 1}, "net.DialTimeout": {0, 1},
@@ -357,6 +358,11 @@ func (o *ownership) isCloseOf(in ssa.Instruction, h *holderInfo) bool {
 		name = cc.Method.Name()
 		args = append([]ssa.Value{cc.Value}, cc.Args...)
 	} else if callee := cc.StaticCallee(); callee != nil {
+		for k, a := range cc.Args {
+			if h.vals[a] && o.releasesParam(callee, k) {
+				return true
+			}
+		}
 		name = callee.Name()
 		args = cc.Args
 		full := callee.String()
@@ -379,6 +385,48 @@ func (o *ownership) isCloseOf(in ssa.Instruction, h *holderInfo) bool {
 		}
 	}
 	return false
+}
+
+// releasesParam: hf is a function of the analysed packages that is not part of the pinned tree (a helper split off by
+// a refactoring) and that releases its k-th parameter on every path that returns (directly or in a deferred call):
+// handing a resource to it is releasing it (`b.mirror(file)` with `defer func() { os.Remove(..); file.Close() }()`).
+func (o *ownership) releasesParam(hf *ssa.Function, k int) bool {
+	if hf == nil || hf.Blocks == nil || k >= len(hf.Params) || !o.inScope(hf) || knownOnPinnedTree(hf) {
+		return false
+	}
+	if m, ok := o.releases[hf]; ok {
+		if v, ok := m[k]; ok {
+			return v
+		}
+	} else {
+		o.releases[hf] = map[int]bool{}
+	}
+	o.releases[hf][k] = false
+	h := o.holders(hf, hf.Params[k])
+	paths, overflow := enumPaths(hf)
+	if overflow || len(paths) == 0 {
+		return false
+	}
+	for _, path := range paths {
+		if path.Panics {
+			continue
+		}
+		pi := newPathIndex(path)
+		closed := false
+		for _, in := range pi.instrs {
+			if o.isCloseOf(in, h) {
+				closed = true
+			}
+			if d, ok := in.(*ssa.Defer); ok && o.deferredCloses(pi, d, h) {
+				closed = true
+			}
+		}
+		if !closed {
+			return false
+		}
+	}
+	o.releases[hf][k] = true
+	return true
 }
 
 // pathIndex orders the instructions of a path.
